@@ -76,3 +76,44 @@ Definition C18_crawler_control_statement : Prop :=
   forall P n r, In r (cdg_get (cdg_of P) n) <->
     exists s, In s (succs P n) /\
       In r (runner_walk (pdoms P) n (ipdom (pdoms P) n) (S (length (c_blocks P))) (Some s)).
+
+(* C18_crawler_control_statement is false as written: cdg.hpp's post_dominance returns at
+   once when the CFG has no exit, so the control-dependence graph (of the code and of the
+   model) is empty there, while the runner expression on the right-hand side is not
+   (CFG 0 -> 1, 1 -> 1, no exit: the runner started at successor 1 of block 0 visits 1).
+   With the has_exit guard the statement is an equivalence, for every n and r. *)
+From CrabV Require Import Ana.CrawlerCdg.
+
+Theorem C18_crawler_control_refuted : ~ C18_crawler_control_statement.
+Proof. exact cdg_statement_refuted. Qed.
+Print Assumptions C18_crawler_control_refuted.
+
+(* the exact relationship: the graph is empty without exit, and otherwise it is what the
+   runner loop of graph_algo_impl::dominance collects on the reversed graph *)
+Theorem C18_crawler_control : forall P n r,
+  In r (cdg_get (cdg_of P) n) <->
+    c_exit P <> None /\
+    exists s, In s (succs P n) /\
+      In r (runner_walk (pdoms P) n (ipdom (pdoms P) n) (S (length (c_blocks P))) (Some s)).
+Proof. exact cdg_of_runner. Qed.
+Print Assumptions C18_crawler_control.
+
+(* the statement itself, under the hypothesis it lacks *)
+Theorem C18_crawler_control_partial : forall P n r,
+  c_exit P <> None ->
+  (In r (cdg_get (cdg_of P) n) <->
+    exists s, In s (succs P n) /\
+      In r (runner_walk (pdoms P) n (ipdom (pdoms P) n) (S (length (c_blocks P))) (Some s))).
+Proof. exact cdg_of_runner_exit. Qed.
+Print Assumptions C18_crawler_control_partial.
+
+Theorem C18_crawler_control_no_exit : forall P n,
+  c_exit P = None -> cdg_get (cdg_of P) n = [].
+Proof. exact cdg_of_no_exit. Qed.
+Print Assumptions C18_crawler_control_no_exit.
+
+(* not vacuous: a diamond with an exit, whose branches are control dependent on its head *)
+Example C18_crawler_control_example :
+  c_exit diamond_cfg <> None /\
+  cdg_of diamond_cfg = [(0%N, [1%N; 2%N]); (1%N, []); (2%N, []); (3%N, [])].
+Proof. exact diamond_cdg. Qed.
